@@ -171,6 +171,10 @@ def run(ctx):
     evaltables.rule_trampoline(ctx, "C01-once", {"once"})      # ... and for a call in tail position (tail evaluator + trampoline together)
     # a call applies the value its operator has when the call is made: the operator of every pending tail call is evaluated, in the
     # environment of the turn that made it (the same name / the same call site on consecutive turns may denote different procedures)
+    ctx.rule("C01-scope-chain", "a new frame is a child of exactly the frame it is made under (LexicalScope::new_child on a three-frame chain, "
+                                "every subset of the frames binding something): innermost-binding lookup walks the frames the program nested")
+    from . import scopes as _sc01
+    _sc01.rule_new_child(ctx, fb, "C01-scope-chain")
     ctx.rule("C01-operator-value", "the procedure applied by a tail call is the value of its operator expression at that call (trampoline "
                                    "table: three turns through one operator name / one call site bound to a different procedure each time)")
     evaltables.rule_trampoline(ctx, "C01-operator-value", {"operator"})
